@@ -1272,9 +1272,8 @@ def r06e(P, R):
                 e_ = strip(e_)
                 while isinstance(e_, dict) and e_.get("k") in ("Index", "Field"):
                     e_ = strip(e_["e"])
-                e_ = C.resolve(e_)
                 while isinstance(e_, dict) and e_.get("k") == "Path" and e_.get("local") in param_arg:
-                    e_ = C.resolve(param_arg[e_["local"]])
+                    e_ = strip(param_arg[e_["local"]])     # the variable itself, not what it was initialised with
                 return e_.get("local") if isinstance(e_, dict) and e_.get("k") == "Path" else None
             writes = [(x, root_local(x["l"])) for x in subnodes(loop) if x.get("k") in ("Assign", "AssignOp") and strip(x["l"]).get("k") == "Index"]
             writes = [(x, l_) for x, l_ in writes if l_ in outer]
